@@ -214,7 +214,7 @@ func (eci *ECInstance) GetDecision(participant gpbft.ActorID) *gpbft.ECChain {
 }
 
 func (ec *simEC) HasInstance(instance uint64) bool {
-	return ec.Len() > int(instance)
+	return uint64(ec.Len()) > instance
 }
 
 func (eci *ECInstance) Print() {
